@@ -599,6 +599,7 @@ func (k *Case) Bystander() {
 // RunCase executes fn inside a fresh synctest bubble with a fresh server; returns the panic
 // message of the bubble (leftover goroutines) if any.
 func RunCase(t *testing.T, lg *go9p.Logger, cfg Cfg, seed int64, fn func(k *Case)) (kk *Case, leftover string) {
+	StartWatchdog()
 	defer func() {
 		if r := recover(); r != nil {
 			leftover = fmt.Sprint(r)
